@@ -130,6 +130,21 @@ def read_all(fmt, data, d, tag):
         project(fmt, t[:max(1, len(t) // 2)])
         return project(fmt, t)
     res["lazy-after-peek"] = outcome(peek_then_all)
+
+    def chunks_sliced_concat():
+        # every chunk without its first entry, joined again: the entries of the file minus those (first entries are put back as markers)
+        chunks = list(bnp.open(path, **kw).read_chunks(min_chunk_size=max(len(data) // 3, 1)))
+        if len(chunks) < 2 or any(len(c) < 2 for c in chunks[:-1]):
+            return None
+        joined = np.concatenate([c[1:] for c in chunks])
+        rows = project(fmt, joined)
+        out, k = [], 0
+        for c in chunks:
+            out.append("dropped")
+            out += rows[k:k + len(c) - 1]
+            k += len(c) - 1
+        return out
+    res["chunks-sliced-concat"] = outcome(chunks_sliced_concat)
     os.remove(path)
     return res
 
@@ -236,8 +251,15 @@ def check_vector(v):
     widths = len({len(str(r)) for r in exp}) > 1
     nt = [json.dumps(v["text"])] if (len(exp) > 1 and widths) or v["crlf"] or not v["finalnl"] or v["header"] or v["ncomments"] else []
     for mode, o in res.items():
+        want = exp[::-1] if mode.endswith("-reversed") else exp
+        if mode == "chunks-sliced-concat":
+            if o == ("ok", None):
+                continue
+            if o[0] == "ok" and len(o[1]) == len(exp):
+                keep = [i for i, r in enumerate(o[1]) if r != "dropped"]
+                o, want = ("ok", [o[1][i] for i in keep]), [exp[i] for i in keep]
         n += 1
-        if o[0] != "ok" or not _same(fmt, exp[::-1] if mode.endswith("-reversed") else exp, o[1]):
+        if o[0] != "ok" or not _same(fmt, want, o[1]):
             kind = "raises" if o[0] != "ok" else ("count" if len(o[1]) != len(exp) else "values")
             mixed_dot = fmt == "bed6dot" or False
             bad.append({"what": "entries read from a well-formed %s file differ from what the format assigns to its text" % fmt,
@@ -345,7 +367,13 @@ def record_trace(job):
     data = text.encode("latin-1")
     res = read_all(fmt, data, d, "B%d_%d" % (os.getpid(), tid))
     # rows of a reversed selection are sent to TLC in file order (TLC compares with Parse(text))
+    csc = res.pop("chunks-sliced-concat")
     res = {m: (("ok", o[1][::-1]) if m.endswith("-reversed") and o[0] == "ok" else o) for m, o in res.items()}
+    if csc != ("ok", None):
+        # the entries dropped from each chunk are filled in from the lazy read (itself validated by TLC), so that TLC sees a whole file
+        if csc[0] == "ok" and res["lazy"][0] == "ok" and len(csc[1]) == len(res["lazy"][1]):
+            csc = ("ok", [res["lazy"][1][i] if r == "dropped" else r for i, r in enumerate(csc[1])])
+        res["chunks-sliced-concat"] = csc
     return {"tid": tid, "fmt": fmt, "text": list(data), "res": res}
 
 
